@@ -249,6 +249,83 @@ fn long_inputs(acc: &mut Acc) {
     }
 }
 
+/// Pratt parsers are grammars too: the bare `atom.pratt(table)` must accept exactly the inputs that the
+/// textbook binding-power loop consumes completely (an operator whose operand is missing, or one that a
+/// later operator would have to skip over, is *not* consumed by the grammar), `lazy()` exactly those with
+/// an expression prefix.
+fn pratt_family(acc: &mut Acc, cx: &RunCtx) {
+    use crate::prattk::*;
+    let syms = ['+', '-', '*'];
+    let mut ops: Vec<OpSpec> = vec![];
+    for kind in [OpKind::Pre, OpKind::Post, OpKind::InL, OpKind::InR] {
+        for &sym in &syms {
+            for bp in 0..3u16 {
+                ops.push(OpSpec { kind, sym, bp });
+            }
+        }
+    }
+    let mut tables: Vec<Vec<OpSpec>> = ops.iter().map(|o| vec![*o]).collect();
+    for a in &ops {
+        for b in &ops {
+            tables.push(vec![*a, *b]);
+        }
+    }
+    // a sample of 3-operator tables
+    let mut rng = Rng::derive(cx.seed, 0xC03F, 0);
+    for _ in 0..cx.t(300, 3000) {
+        tables.push((0..3).map(|_| *rng.pick(&ops)).collect());
+    }
+    let inputs = all_inputs(&['x', '+', '-', '*'], cx.t(5, 6));
+    let bufs: Vec<Buf> = inputs.iter().map(|w| Buf::new(w)).collect();
+    let pacc = for_each_index(tables.len(), cx.threads, 4, |acc, ti| {
+        let t = &tables[ti];
+        for (bi, buf) in bufs.iter().enumerate() {
+            let mut r = Ref { w: &buf.chars, t, steps: 0 };
+            let e = r.expr(0, 0);
+            let whole = matches!(e, Some((_, q)) if q == buf.n());
+            let prefix = e.is_some();
+            for mode in 0..3u8 {
+                if mode > 0 && (bi + ti) % 3 != 0 {
+                    continue;
+                }
+                acc.evaluations += 1;
+                acc.count("pratt_family_runs", 1);
+                let name = ["parse", "check", "lazy().parse"][mode as usize];
+                let ro = run_vec_bare(t, buf, mode);
+                CONTRACT_FAIL.with(|c| {
+                    if let Some(m) = c.borrow_mut().take() {
+                        acc.viol(Viol { weight: 300 + buf.n(), what: format!("C03: result API inconsistent ({} of a Pratt parser): {}", name, m), detail: json!({"grammar_text": show_table(t), "input": buf.text}) });
+                    }
+                });
+                let want = if mode == 2 { prefix } else { whole };
+                match ro {
+                    Ok(ro) => {
+                        let clean = ro.has_output && ro.errs.is_empty();
+                        if clean {
+                            acc.count("pratt_family_clean_accepts", 1);
+                        }
+                        if prefix && !whole {
+                            acc.count("pratt_family_proper_prefix_expressions", 1);
+                            acc.nontrivial_rand.insert(crate::rng::hash64(format!("pratt|{}|{}", show_table(t), buf.text).as_bytes()));
+                        }
+                        if clean != want || (!ro.has_output && ro.errs.is_empty()) {
+                            acc.viol(Viol {
+                                weight: 300 + t.len() * 16 + buf.n(),
+                                what: format!("C03: {}() of [{}] on {:?}: has_output={} errors={} but the binding-power algorithm {}", name, show_table(t), buf.text, ro.has_output, ro.errs.len(), if mode == 2 { if prefix { "finds an expression prefix" } else { "finds no expression" } } else if whole { "consumes the whole input" } else { "does not consume the whole input" }),
+                                detail: json!({"grammar_text": show_table(t), "input": buf.text, "mode": name}),
+                            });
+                        }
+                    }
+                    Err(e) if e == "STEP_BUDGET" => acc.inconclusive += 1,
+                    Err(e) => acc.viol(Viol { weight: 300 + buf.n(), what: format!("C03: {}() of [{}] on {:?}: {}", name, show_table(t), buf.text, e), detail: json!({"grammar_text": show_table(t), "input": buf.text}) }),
+                }
+            }
+        }
+    });
+    acc.merge(pacc);
+    acc.count("pratt_family_tables", tables.len() as u64);
+}
+
 pub fn run(cx: &RunCtx) -> i32 {
     let alpha: Vec<char> = vec!['a', 'b', 'é'];
     let max_len = cx.t(4, 5);
@@ -286,16 +363,17 @@ pub fn run(cx: &RunCtx) -> i32 {
         }
     });
     acc.merge(racc);
+    pratt_family(&mut acc, cx);
     acc.count("results_checked_against_api_contract", RESULTS_SEEN.with(|c| c.get()));
     finish(
         cx,
         acc,
         Finish {
-            rule: format!("every grammar with <= {size} nodes over (C01 core + repetition/separator/fold + validate + recover_with(via_parser|skip_until|skip_then_retry_until)) x every input of length <= {max_len} over {{a,b,é}}: parse(), check() and lazy().parse() each compared with the reference semantics (whole-input match, prefix match); every cleanly accepted input of maximal length (and all lengths for every 16th grammar) is extended by each letter and re-parsed; every ParseResult is run through the accessor-consistency assertions; every 4th grammar also with EmptyErr (parse and check), Cheap (check) and on a Stream input; 6 repetition grammars on inputs of 511..1301 tokens (all 'a', with a 'b' or 'c' at the end / at the 512-token batch boundary / in the middle, alternating) on &str, Stream (exact size hint), Stream over an iterator without size hint and a boxed Stream, parse and check; plus {n_rand} random grammars x 4 random inputs; non-trivial = the grammar matches a prefix of a non-empty input"),
+            rule: format!("every grammar with <= {size} nodes over (C01 core + repetition/separator/fold + validate + recover_with(via_parser|skip_until|skip_then_retry_until)) x every input of length <= {max_len} over {{a,b,é}}: parse(), check() and lazy().parse() each compared with the reference semantics (whole-input match, prefix match); every cleanly accepted input of maximal length (and all lengths for every 16th grammar) is extended by each letter and re-parsed; every ParseResult is run through the accessor-consistency assertions; every 4th grammar also with EmptyErr (parse and check), Cheap (check) and on a Stream input; 6 repetition grammars on inputs of 511..1301 tokens (all 'a', with a 'b' or 'c' at the end / at the 512-token batch boundary / in the middle, alternating) on &str, Stream (exact size hint), Stream over an iterator without size hint and a boxed Stream, parse and check; plus {n_rand} random grammars x 4 random inputs; plus a Pratt family (all operator tables with <= 2 operators over 4 kinds x 3 symbols x 3 powers and a sample of 3-operator tables, bare atom.pratt(table), x all strings over {{x,+,-,*}} up to length {}; parse / check / lazy against the textbook binding-power loop: clean accept iff the loop consumes the whole input, lazy iff it finds an expression prefix); non-trivial = the grammar matches a prefix of a non-empty input", cx.t(5, 6)),
             exhaustive: false,
             exhaustive_note: format!("grammars <= {size} nodes x inputs <= {max_len}: complete"),
             assumptions: vec!["reference semantics decides 'matches the entire input'".into(), "A1/A2/A9 cases counted as ambiguous".into()],
-            require: vec![("other_type_or_kind_runs".into(), 1000), ("long_input_runs".into(), 1000), ("clean_accepts".into(), 100), ("proper_prefix_matches".into(), 100), ("extensions_checked".into(), 100), ("lazy_prefix_accepts".into(), 100), ("accepts_with_errors".into(), 10)],
+            require: vec![("other_type_or_kind_runs".into(), 1000), ("long_input_runs".into(), 1000), ("clean_accepts".into(), 100), ("proper_prefix_matches".into(), 100), ("extensions_checked".into(), 100), ("lazy_prefix_accepts".into(), 100), ("accepts_with_errors".into(), 10), ("pratt_family_clean_accepts".into(), 1000), ("pratt_family_proper_prefix_expressions".into(), 1000)],
             min_evaluations: 10_000,
         },
     )
